@@ -73,6 +73,17 @@ func c03Expected(kinds []string) []string {
 	return out
 }
 
+func norm0(s []string) []string {
+	o := make([]string, len(s))
+	for i, x := range s {
+		if x == "synthetic-done0" {
+			x = "done0"
+		}
+		o[i] = x
+	}
+	return o
+}
+
 func c03Kind(pkg tds.Package) string {
 	switch p := pkg.(type) {
 	case *tds.DonePackage:
@@ -142,7 +153,7 @@ func c03Run(c *Ctx, cs c03Case) {
 			return
 		}
 		want := c03Expected(rd.Kinds)
-		if rd.Style == "until" {
+		if rd.Style == "until" || rd.Style == "until-nil" {
 			var w []string
 			for _, x := range want {
 				if x != "eed" {
@@ -170,7 +181,29 @@ func c03Run(c *Ctx, cs c03Case) {
 		otherErr := ""
 		cbCalls := 0
 		roundOver := func() bool { return len(seen) > 0 && seen[len(seen)-1] == "done0" }
-		if rd.Style == "nextpackage" {
+		if rd.Style == "until-nil" {
+			// documented: with a nil callback all packages of the current
+			// response are consumed and io.EOF is returned (wrapped in an
+			// EEDError if the response carried messages)
+			pkg, err := k.ch.NextPackageUntil(ctx, true, nil)
+			switch {
+			case err != nil && ctx.Err() != nil && errors.Is(err, context.Canceled):
+				blocked = "NextPackageUntil(nil)"
+			case pkg != nil || (err != nil && !errors.Is(err, io.EOF)):
+				// the doc comment promises (nil, io.EOF); the library returns
+				// (nil, nil) unless the first package is the final DONE. The
+				// property only speaks about what is consumed, so both are
+				// accepted here (counted).
+				otherErr = fmt.Sprintf("NextPackageUntil with a nil callback returned (%v, %v), want no package and nil or io.EOF", pkg, err)
+			default:
+				if err == nil {
+					r.Count("nil_callback_returned_nil_instead_of_io.EOF", 1)
+				}
+				// consumed without showing anything: the leftover check below
+				// verifies that the whole response is gone
+				seen = append([]string(nil), norm0(want)...)
+			}
+		} else if rd.Style == "nextpackage" {
 			for !roundOver() {
 				pkg, err := k.ch.NextPackage(ctx, true)
 				if err != nil {
@@ -549,7 +582,10 @@ func c03GenRound(rnd *rt.Rand, shapes []c03Shape, si int) c03Round {
 		rd.CutClass = "header-only-eom"
 	}
 	exp := c03Expected(rd.Kinds)
-	if rnd.Chance(1, 3) {
+	if rnd.Chance(1, 8) {
+		rd.Style = "until-nil"
+		rd.AbortAt = -1
+	} else if rnd.Chance(1, 3) {
 		rd.Style = "nextpackage"
 		rd.AbortAt = -1
 	} else {
